@@ -33,6 +33,7 @@ import (
 //	  D<u>.<len>.<seed>  the same without waiting (burst; the next waiting token collects)
 //	  r<u>.<len>.<seed>  the peer sends a reply for user u on the current connection (ignored when there is
 //	                     none or the peer has not learned the address of u); wait until u has it
+//	  R<u>.<len>.<seed>  the same without waiting (burst of replies; the next waiting token collects)
 //	  p                  the peer sends a Ping on the current connection
 //	  x | y | z          the current connection goes away: FIN from the peer | frame of unknown type |
 //	                     frame longer than the 10240 limit (the visitor's reader fails and closes)
@@ -255,7 +256,8 @@ func runSudp(ps int, enc, comp bool, k int, script []string) (string, bool) {
 	surplus := false // the peer got more than was sent: the verdict is settled, do not wait long any more
 	lostW := 0       // datagrams given up on at an earlier wait (the waits after it do not pay for them again)
 	patience := 400 * time.Millisecond
-	syncUp := func() {
+	var syncUp func()
+	syncUp = func() {
 		ok := sudpWaitFor(func() bool {
 			peer.mu.Lock()
 			defer peer.mu.Unlock()
@@ -280,6 +282,32 @@ func runSudp(ps int, enc, comp bool, k int, script []string) (string, bool) {
 			patience = 30 * time.Millisecond
 		}
 	}
+	// replies sent without waiting (R) are collected at the next wait
+	collectReplies := func() {
+		ok := sudpWaitFor(func() bool {
+			umu.Lock()
+			defer umu.Unlock()
+			for u := range expectU {
+				if len(uLog[u]) < expectU[u] {
+					return false
+				}
+			}
+			return true
+		}, patience)
+		if !ok {
+			missing = true
+			umu.Lock()
+			for u := range expectU {
+				if len(uLog[u]) < expectU[u] {
+					expectU[u] = len(uLog[u])
+				}
+			}
+			umu.Unlock()
+			patience = 100 * time.Millisecond
+		}
+	}
+	syncData := syncUp
+	syncUp = func() { syncData(); collectReplies() }
 	settle := func() { time.Sleep(15 * time.Millisecond) }
 	killed := false
 	for i, t := range script {
@@ -302,6 +330,24 @@ func runSudp(ps int, enc, comp bool, k int, script []string) (string, bool) {
 			if t[0] == 'd' {
 				syncUp()
 			}
+		case t[0] == 'R':
+			// a reply of a burst: written behind the previous one, nobody waits (the first of a burst synchronises
+			// with the datagrams before it, as `r` does: the peer must have learned the user's address)
+			if i == 0 || script[i-1][0] != 'R' {
+				syncUp()
+			}
+			f := strings.Split(t[1:], ".")
+			u, ln, seed := atoi(f[0]), atoi(f[1]), atoi(f[2])
+			peer.mu.Lock()
+			cur, addr := peer.cur, peer.learned[u]
+			peer.mu.Unlock()
+			if !live || cur == nil || addr == nil {
+				continue
+			}
+			if err := msg.WriteMsg(cur, udp.NewUDPPacket(tunnelReply(tunnelPayload(u, i, ln, seed)), nil, addr)); err != nil {
+				continue
+			}
+			expectU[u]++
 		case t[0] == 'r':
 			syncUp()
 			f := strings.Split(t[1:], ".")
@@ -428,8 +474,9 @@ func sudpExec(tok []string) string {
 	// a datagram legitimately lost (kernel, or sent in the instant the connection was going away) must
 	// not alarm: when something is missing the same op is run again
 	res, missing := runSudp(ps, enc, comp, k, script)
-	if missing {
-		res, _ = runSudp(ps, enc, comp, k, script)
+	if udpRerunWorthIt(missing) {
+		res, missing = runSudp(ps, enc, comp, k, script)
+		udpRerunDone(missing)
 	}
 	return res
 }
@@ -454,7 +501,7 @@ func sudpGenLen(rng *rand.Rand, ps, maxLen int) int {
 // sudpGenScript: traffic of k users interleaved with replies, pings, connection loss of three kinds at
 // arbitrary points (also back to back, also as the very first / very last token) and failing
 // connection attempts of three kinds (also several in a row).
-func sudpGenScript(rng *rand.Rand, ps, k, ntok, maxLen int) string {
+func sudpGenScript(rng *rand.Rand, ps, k, ntok, maxLen, bursts int) string {
 	toks := make([]string, 0, ntok)
 	live := false
 	seen := map[int]bool{}
@@ -495,6 +542,46 @@ func sudpGenScript(rng *rand.Rand, ps, k, ntok, maxLen int) string {
 			seen[u] = true
 		}
 	}
+	// bursts of 20 to 100 distinct payloads at arbitrary points of the script: datagrams back to back on the visitor's
+	// port (one user, the users in turn, arbitrary users; the length changes from datagram to datagram), collected by
+	// a waiting datagram, and — half of the time — behind it as many replies back to back on the visitor connection
+	// to the users of the burst, collected by a waiting reply
+	for b := 0; b < bursts; b++ {
+		g, bmax := burstShape(rng, ps)
+		if bmax > maxLen {
+			bmax = maxLen
+		}
+		var seg []string
+		mode, u0 := rng.Intn(3), rng.Intn(k)
+		ln := sudpGenLen(rng, ps, bmax)
+		us := make([]int, g)
+		for i := 0; i < g; i++ {
+			u := u0
+			switch mode {
+			case 1:
+				u = (u0 + i) % k
+			case 2:
+				u = rng.Intn(k)
+			}
+			us[i] = u
+			if rng.Intn(4) != 0 {
+				ln = sudpGenLen(rng, ps, bmax)
+			}
+			seg = append(seg, fmt.Sprintf("D%d.%d.%d", u, ln, rng.Intn(1<<30)))
+		}
+		seg = append(seg, fmt.Sprintf("d%d.%d.%d", u0, sudpGenLen(rng, ps, bmax), rng.Intn(1<<30)))
+		if rng.Intn(2) == 0 {
+			for i := 0; i < g; i++ {
+				if rng.Intn(4) != 0 {
+					ln = sudpGenLen(rng, ps, bmax)
+				}
+				seg = append(seg, fmt.Sprintf("R%d.%d.%d", us[i], ln, rng.Intn(1<<30)))
+			}
+			seg = append(seg, fmt.Sprintf("r%d.%d.%d", u0, sudpGenLen(rng, ps, bmax), rng.Intn(1<<30)))
+		}
+		at := rng.Intn(len(toks) + 1)
+		toks = append(toks[:at], append(seg, toks[at:]...)...)
+	}
 	return strings.Join(toks, ",")
 }
 
@@ -513,7 +600,16 @@ func sudpGen(rng *rand.Rand, n int, emit func(string)) {
 		case 3:
 			ps, maxLen = 1500, 200
 		}
-		emit(fmt.Sprintf("sudp ps=%d enc=%d comp=%d k=%d s=%s", ps, rng.Intn(2), rng.Intn(2), k,
-			sudpGenScript(rng, ps, k, 8+rng.Intn(40), maxLen)))
+		// the four encryption x compression settings in turn, then arbitrary ones; every fifth script carries bursts
+		enc, comp := i>>1&1, i&1
+		if i >= 4 {
+			enc, comp = rng.Intn(2), rng.Intn(2)
+		}
+		bursts := 0
+		if i%5 == 0 {
+			bursts = 1 + rng.Intn(2)
+		}
+		emit(fmt.Sprintf("sudp ps=%d enc=%d comp=%d k=%d s=%s", ps, enc, comp, k,
+			sudpGenScript(rng, ps, k, 8+rng.Intn(40), maxLen, bursts)))
 	}
 }
